@@ -5110,3 +5110,131 @@ func ruleContinuationFreshIndex(c *Ctx) {
 	}
 	c.Floor("function literals in package native", nLit, 40)
 }
+
+// ---------------------------------------------------------------------------
+// raw-bytes-owned (C02, C09) - pkg/core/state has types that carry the raw stored bytes of a record in an exported
+// []byte field which the DAO fills with the very slice Store.Get returned - the slice the cache layer holds, and
+// after a flush started, the frozen layer the flush is writing from. A method that writes an element of that field
+// in place, or appends through a bytes.Buffer created over it (which writes into its spare capacity first), changes
+// what that layer holds: a batch being flushed reaches the database half-updated (a transfer-log counter that is
+// ahead of its entries, together with the old block pointer), and a crash keeps it that way. Such a method has to
+// replace the field by a clone on every path to the write; "only if not owned yet" is recognised through a boolean
+// field of the type: assumed false, the clone must still be passed.
+func ruleRawBytesOwned(c *Ctx) {
+	pk := c.P.Pkg("pkg/core/state")
+	if pk == nil {
+		c.Lost("raw-bytes-owned.anchor", "package state not found")
+		return
+	}
+	info := pk.TypesInfo
+	n := 0
+	for _, fd := range c.P.AllFuncDecls() {
+		if fd.Pkg != pk || fd.Decl.Body == nil || fd.Decl.Recv == nil || len(fd.Decl.Recv.List) == 0 || len(fd.Decl.Recv.List[0].Names) == 0 {
+			continue
+		}
+		recvObj := info.ObjectOf(fd.Decl.Recv.List[0].Names[0])
+		rt := fd.Obj.Type().(*types.Signature).Recv().Type()
+		if p, ok := rt.(*types.Pointer); ok {
+			rt = p.Elem()
+		}
+		nt, ok := rt.(*types.Named)
+		if !ok {
+			continue
+		}
+		st, ok := nt.Underlying().(*types.Struct)
+		if !ok {
+			continue
+		}
+		// exported []byte fields
+		raw := map[types.Object]bool{}
+		var bools []*types.Var
+		for i := 0; i < st.NumFields(); i++ {
+			fl := st.Field(i)
+			if sl, ok := fl.Type().Underlying().(*types.Slice); ok && fl.Exported() {
+				if b, ok := sl.Elem().Underlying().(*types.Basic); ok && b.Kind() == types.Byte {
+					raw[fl] = true
+				}
+			}
+			if b, ok := fl.Type().Underlying().(*types.Basic); ok && b.Kind() == types.Bool {
+				bools = append(bools, fl)
+			}
+		}
+		if len(raw) == 0 {
+			continue
+		}
+		isRecvField := func(e ast.Expr) types.Object {
+			sel, ok := ast.Unparen(e).(*ast.SelectorExpr)
+			if !ok {
+				return nil
+			}
+			if id, ok := ast.Unparen(sel.X).(*ast.Ident); ok && info.ObjectOf(id) == recvObj && raw[info.ObjectOf(sel.Sel)] {
+				return info.ObjectOf(sel.Sel)
+			}
+			return nil
+		}
+		f := c.P.NewFuncCFG(fd)
+		var writes, clones []site
+		for _, b := range f.G.Blocks {
+			if !b.Live {
+				continue
+			}
+			for i, nd := range b.Nodes {
+				w, cl := false, false
+				inspectNoLit(nd, func(x ast.Node) bool {
+					switch y := x.(type) {
+					case *ast.IncDecStmt:
+						if ix, ok := ast.Unparen(y.X).(*ast.IndexExpr); ok && isRecvField(ix.X) != nil {
+							w = true
+						}
+					case *ast.AssignStmt:
+						for li, l := range y.Lhs {
+							if ix, ok := ast.Unparen(l).(*ast.IndexExpr); ok && isRecvField(ix.X) != nil {
+								w = true
+							}
+							if isRecvField(l) != nil && li < len(y.Rhs) {
+								if call, ok := ast.Unparen(y.Rhs[li]).(*ast.CallExpr); ok {
+									switch f.calleeSym(call) {
+									case "bytes.Clone", "slices.Clone":
+										cl = true
+									}
+								}
+							}
+						}
+					case *ast.CallExpr:
+						cs := f.calleeSym(y)
+						if (cs == "bytes.NewBuffer" || cs == "copy") && len(y.Args) >= 1 && isRecvField(y.Args[0]) != nil {
+							w = true
+						}
+					}
+					return true
+				})
+				if w {
+					writes = append(writes, site{blk: b, idx: i, node: nd})
+				}
+				if cl {
+					clones = append(clones, site{blk: b, idx: i, node: nd})
+				}
+			}
+		}
+		if len(writes) == 0 {
+			continue
+		}
+		n++
+		key := "raw-bytes-owned." + FuncKey(fd.Obj)
+		ok2, path := f.mustBefore(f.Entry(), writes, clones, nil)
+		how := "unconditionally"
+		if !ok2 {
+			for _, bf := range bools {
+				if ok3, _ := f.mustBefore(f.Entry(), writes, clones, symAssume(symOf(bf), false)); ok3 {
+					ok2, how = true, "whenever "+bf.Name()+" is false"
+				}
+			}
+		}
+		if ok2 {
+			c.OK(key, c.P.Pos(fd.Decl.Pos()), "writes into the raw bytes only after replacing them by a clone ("+how+")")
+		} else {
+			c.Fail(key, c.P.Pos(writes[0].node.Pos()), fmt.Sprintf("%s writes into the raw stored bytes it was given (an element in place, or a bytes.Buffer created over them, which fills their spare capacity first) without replacing them by a clone first: the DAO fills this field with the slice the cache layer holds, so the write changes the value of a layer that may be in the middle of a flush", FuncKey(fd.Obj)), path...)
+		}
+	}
+	c.Floor("methods writing into raw stored bytes", n, 1)
+}
